@@ -68,6 +68,36 @@ def quote_string(value: str) -> str:
     return f"'{_escape_string(value)}'"
 
 
+_RESERVED_WORDS = frozenset(
+    [
+        "true",
+        "false",
+        "and",
+        "or",
+        "in",
+        "not",
+        "contains",
+        "nil",
+        "null",
+        "if",
+        "else",
+        "with",
+        "required",
+        "as",
+        "for",
+        "empty",
+        "blank",
+    ]
+)
+
+
+def quote_identifier(name: str) -> str:
+    """Return _name_ as is if it is a valid identifier, or as a quoted string if not."""
+    if RE_PROPERTY.fullmatch(name) and name not in _RESERVED_WORDS:
+        return name
+    return quote_string(name)
+
+
 def _escape_string(value: str) -> str:
     buf: list[str] = []
     for ch in value:
@@ -557,7 +587,9 @@ class Path(Expression):
     def __str__(self) -> str:
         it = iter(self.path)
         root = next(it)
-        if isinstance(root, str) and not RE_PROPERTY.fullmatch(root):
+        if isinstance(root, str) and (
+            not RE_PROPERTY.fullmatch(root) or root in _RESERVED_WORDS
+        ):
             buf = [f"[{quote_string(root)}]"]
         else:
             buf = [str(root)]
